@@ -17,13 +17,15 @@ PROPERTY = 'C10'
 LEVEL = 'model_checking'
 BOUNDS = {
     'quick': 'chains / ladders / 2x2 squares with <= 4 sites (infinite: unit cell <= 2 sites, window of 2 unit cells = terms completely '
-             'inside the window), spin-1/2 (conserve None / Sz / parity) and spinless fermion (None / N) sites; onsite, two-site '
-             '(range <= system size), three-site and exponentially decaying (lambda = 1/2) terms; real and complex, scalar and '
+             'inside the window), spin-1/2 (conserve None / Sz / parity), spinless fermion (None / N) and spinful fermion (N,Sz: charge sorting '
+             'with a non-involutive permutation; 3 sites) sites; onsite, two-site (range <= system size), three-site and exponentially '
+             'decaying terms (lambda = 1/2, complex 1/2 + i/4, and a symbolic complex lambda); dense exporters get_numpy_Hamiltonian '
+             '(symbolic) and get_scipy_sparse_Hamiltonian (concrete replays only) in sorted and standard basis; real and complex, scalar and '
              'site-dependent strengths, at most 1-2 strengths may vanish; explicit_plus_hc on/off; predefined TFIChain, XXZChain, '
              'SpinChain, FermionChain with L <= 4 (infinite: L = 2)',
     'thorough': 'same with <= 6 sites (infinite: window of 3 unit cells), Ladder / Square 2x3, FermiHubbardChain, sort_mpo_legs',
 }
-OUTSIDE = ('get_scipy_sparse_Hamiltonian (scipy.sparse rejects object dtype); strengths with 0 < |s| < tol_zero (treated as zero by '
+OUTSIDE = ('get_scipy_sparse_Hamiltonian is only compared in the concrete runs (path models, counterexamples): scipy.sparse rejects object dtype; strengths with 0 < |s| < tol_zero (treated as zero by '
            'tenpy, below the float resolution of the claim); bosonic sites; the isometry of the SVD factors used by '
            'calc_H_MPO_from_bond (only the product U S V = A is used to represent H)')
 STUBS = ['BLAS contract stub', 'lazy norm: norm(x) > tol (tol <= 1e-10) decided as x != 0 (DESIGN 2(v))', 'numpy facade for tenpy.models.model / networks.terms / networks.mpo / algorithms.exact_diag / tools.misc',
@@ -78,10 +80,24 @@ SITES = {}
 
 def _site(kind, conserve):
     from tenpy.networks import site as s
+    if isinstance(conserve, list):
+        conserve = tuple(conserve)
     key = (kind, conserve)
     if key not in SITES:
-        SITES[key] = s.SpinHalfSite(conserve) if kind == 'spin' else s.FermionSite(conserve)
+        if kind == 'spin':
+            SITES[key] = s.SpinHalfSite(conserve)
+        elif kind == 'fermion':
+            SITES[key] = s.FermionSite(conserve)
+        elif kind == 'hubbard':  # spinful fermions: the charge-sorting permutation for ('N', 'Sz') is not an involution
+            SITES[key] = s.SpinHalfFermionSite(cons_N=conserve[0], cons_Sz=conserve[1])
+        else:
+            raise ValueError(kind)
     return SITES[key]
+
+
+def _twin(kind):
+    """the same site type without conserved charges: standard (un-sorted) local basis, site.perm is the identity"""
+    return _site(kind, (None, None) if kind == 'hubbard' else None)
 
 
 def _hc(site, name):
@@ -107,7 +123,18 @@ def _strength(ctx, ref, k, t, free):
     return Md.sym_strength(ctx, f's{k}', shape, cplx=t.get('cplx', False), free=free)
 
 
-def coupling_model_case(ctx, cfg, terms, eph=False, n_free=1, n_cells=2, checks=('mpo', 'termlist', 'bonds', 'conv', 'ed', 'group')):
+def _lambda(ctx, t):
+    """decay rate of an exponentially decaying term: concrete real, concrete complex [re, im] or symbolic ('sym')"""
+    lam = t['lambda']
+    if lam == 'sym':
+        lam = Md.sym_strength(ctx, 'lam', (), cplx=True)
+    elif isinstance(lam, (list, tuple)):
+        lam = complex(lam[0], lam[1])
+    return lam
+
+
+def coupling_model_case(ctx, cfg, terms, eph=False, n_free=1, n_cells=2,
+                        checks=('mpo', 'termlist', 'bonds', 'conv', 'ed', 'group', 'export')):
     from tenpy.models.model import CouplingModel, MPOModel, NearestNeighborModel
     from tenpy.networks import mpo
     from tenpy.algorithms.exact_diag import ExactDiag
@@ -117,6 +144,12 @@ def coupling_model_case(ctx, cfg, terms, eph=False, n_free=1, n_cells=2, checks=
     sites = lat.mps_sites()
     M = CouplingModel(lat, explicit_plus_hc=eph)
     orc = Md.Oracle(ctx, lat, ref, n_cells)
+    # second oracle in the standard local basis (twin sites without charge sorting) for the exporters that undo the sorting
+    kind = cfg.get('site', 'spin')
+    sorted_basis = any(list(s_.perm) != list(range(s_.dim)) for s_ in lat.unit_cell)
+    orc0 = Md.Oracle(ctx, lat, ref, 1, unit_cell=[_twin(kind)] * len(lat.unit_cell)) \
+        if (sorted_basis and not ref.infinite and 'export' in checks) else None
+    oracles = [orc] + ([orc0] if orc0 is not None else [])
     free = n_free
     hermitian = True
     has_exp = False
@@ -128,27 +161,35 @@ def coupling_model_case(ctx, cfg, terms, eph=False, n_free=1, n_cells=2, checks=
             hermitian = False
         if t['t'] == 'onsite':
             M.add_onsite(s, t['u'], t['op'], plus_hc=phc)
-            orc.onsite(s, t['u'], t['op'], phc)
+            for o_ in oracles:
+                o_.onsite(s, t['u'], t['op'], phc)
         elif t['t'] == 'coupling':
             M.add_coupling(s, t['u1'], t['op1'], t['u2'], t['op2'], t['dx'], plus_hc=phc)
-            orc.coupling(s, t['u1'], t['op1'], t['u2'], t['op2'], t['dx'], phc)
+            for o_ in oracles:
+                o_.coupling(s, t['u1'], t['op1'], t['u2'], t['op2'], t['dx'], phc)
         elif t['t'] == 'coupling_hc_by_hand':
             # the documented way to add the h.c. explicitly: conj(strength), hc of the operators in swapped order, -dx
             M.add_coupling(s, t['u1'], t['op1'], t['u2'], t['op2'], t['dx'])
             M.add_coupling(np.conj(s), t['u2'], _hc(site, t['op2']), t['u1'], _hc(site, t['op1']), [-d for d in t['dx']])
-            orc.coupling(s, t['u1'], t['op1'], t['u2'], t['op2'], t['dx'], True)
+            for o_ in oracles:
+                o_.coupling(s, t['u1'], t['op1'], t['u2'], t['op2'], t['dx'], True)
             hermitian = hermitian and True
         elif t['t'] == 'multi':
             ops = [(o[0], list(o[1]), o[2]) for o in t['ops']]
             M.add_multi_coupling(s, ops, plus_hc=phc)
-            orc.multi(s, ops, phc)
+            for o_ in oracles:
+                o_.multi(s, ops, phc)
         elif t['t'] == 'exp':
-            M.add_exponentially_decaying_coupling(s, t['lambda'], t['op_i'], t['op_j'], subsites=t.get('subsites'), plus_hc=phc)
-            orc.exp_decaying(s, t['lambda'], t['op_i'], t['op_j'], t.get('subsites'), phc)
+            lam = _lambda(ctx, t)
+            M.add_exponentially_decaying_coupling(s, lam, t['op_i'], t['op_j'], subsites=t.get('subsites'), plus_hc=phc)
+            for o_ in oracles:
+                o_.exp_decaying(s, lam, t['op_i'], t['op_j'], t.get('subsites'), phc)
             has_exp = True
         else:
             raise ValueError(t['t'])
-    nn = orc.max_range <= 1  # all operators of every (non-vanishing) term on neighbouring MPS sites
+    # all operators of every (non-vanishing) term on neighbouring MPS sites; exponentially decaying terms are refused by
+    # calc_H_bond even if their strength vanishes
+    nn = orc.max_range <= 1 and not has_exp
     ctx.note('nearest_neighbour' if nn else 'longer_range')
     ctx.note(f'oracle_terms_{min(orc.n_terms, 9)}')
     O = orc.H
@@ -208,6 +249,27 @@ def coupling_model_case(ctx, cfg, terms, eph=False, n_free=1, n_cells=2, checks=
             ed2 = ExactDiag(NearestNeighborModel(lat, Hb))
             ed2.build_full_H_from_bonds()
             ctx.prove_eq(Md.ed_matrix(ed2), O, 'ExactDiag.build_full_H_from_bonds == oracle')
+    # ---- dense exporters (term-list based for a CouplingModel, ExactDiag based otherwise), sorted and standard basis
+    if finite and 'export' in checks:
+        from tenpy.algorithms import exact_diag as EDm
+        O0 = orc0.H if orc0 is not None else O
+        suffix = ''
+        if eph:
+            suffix = ' (explicit_plus_hc model)'
+        elif orc.jw_gap:
+            suffix = ' (Jordan-Wigner operators on non-adjacent MPS sites)'
+        ctx.prove_eq(EDm.get_numpy_Hamiltonian(M, undo_sort_charge=True), O0,
+                     'get_numpy_Hamiltonian(CouplingModel) == oracle in the standard basis' + suffix)
+        ctx.prove_eq(EDm.get_numpy_Hamiltonian(M, undo_sort_charge=False), O,
+                     'get_numpy_Hamiltonian(CouplingModel, undo_sort_charge=False) == oracle in the sorted basis' + suffix)
+        ctx.prove_eq(EDm.get_numpy_Hamiltonian(mm, undo_sort_charge=True), O0, 'get_numpy_Hamiltonian(MPOModel) == oracle in the standard basis')
+        if nn and Hb is not None and len(sites) >= 3:
+            ctx.prove_eq(EDm.get_numpy_Hamiltonian(NearestNeighborModel(lat, Hb), from_mpo=False), O0,
+                         'get_numpy_Hamiltonian(NearestNeighborModel) == oracle in the standard basis')
+        if not ctx.symbolic:
+            # scipy.sparse rejects object dtype: compared on the solver's path models / counterexamples only
+            ctx.prove_eq(EDm.get_scipy_sparse_Hamiltonian(M).toarray(), O0,
+                         'get_scipy_sparse_Hamiltonian(CouplingModel) == oracle in the standard basis (concrete only)' + suffix)
     # ---- grouping sites keeps the operator (same Kronecker basis: neighbouring sites are merged in order)
     if 'group' in checks and len(sites) % 2 == 0:
         mg = MPOModel(Lt.build_lattice(cfg, site=site), H.copy())
@@ -399,6 +461,17 @@ def _term_sets(site, dim, Lu, conserve):
     d2 = [2] + [0] * (dim - 1)
     u2 = Lu - 1
     sets = {}
+    if site == 'hubbard':
+        sets['nn_real'] = [dict(t='coupling', u1=0, op1='Cdu', u2=0, op2='Cu', dx=d1, s='array', plus_hc=True),
+                           dict(t='coupling', u1=0, op1='Cdd', u2=0, op2='Cd', dx=d1, s='scalar', plus_hc=True),
+                           dict(t='onsite', u=0, op='NuNd', s='array', hermitian=True),
+                           dict(t='coupling', u1=0, op1='Ntot', u2=0, op2='Ntot', dx=d1, s='scalar', hermitian=True)]
+        sets['nn_cplx'] = [dict(t='coupling', u1=0, op1='Cdu', u2=0, op2='Cu', dx=d1, s='array', cplx=True, plus_hc=True),
+                           dict(t='onsite', u=0, op='Nu', s='scalar', hermitian=True)]
+        sets['long'] = [dict(t='coupling', u1=0, op1='Nu', u2=0, op2='Nd', dx=d2, s='scalar', hermitian=True),
+                        dict(t='coupling', u1=0, op1='Cdd', u2=0, op2='Cd', dx=d1, s='scalar', cplx=True, plus_hc=True),
+                        dict(t='onsite', u=0, op='Ntot', s='array', hermitian=True)]
+        return sets
     if site == 'spin':
         flip = ('Sp', 'Sm')
         sets['nn_real'] = [dict(t='coupling', u1=0, op1='Sz', u2=0, op2='Sz', dx=d1, s='array', hermitian=True),
@@ -417,6 +490,10 @@ def _term_sets(site, dim, Lu, conserve):
                          dict(t='onsite', u=0, op='Sz', s='array', hermitian=True)]
         sets['exp'] = [dict(t='exp', op_i='Sz', op_j='Sz', **{'lambda': 0.5}, s='scalar', hermitian=True),
                        dict(t='exp', op_i='Sp', op_j='Sm', **{'lambda': 0.5}, s='scalar', cplx=True, plus_hc=True)]
+        # complex decay rate: the h.c. needs conj(lambda); concrete dyadic constant and fully symbolic
+        sets['exp_cplx'] = [dict(t='exp', op_i='Sp', op_j='Sm', **{'lambda': [0.5, 0.25]}, s='scalar', cplx=True, plus_hc=True),
+                            dict(t='onsite', u=0, op='Sz', s='scalar', hermitian=True)]
+        sets['exp_sym'] = [dict(t='exp', op_i='Sp', op_j='Sm', **{'lambda': 'sym'}, s='scalar', cplx=True, plus_hc=True)]
         if conserve is None:
             sets['nn_xy'] = [dict(t='coupling', u1=0, op1='Sx', u2=0, op2='Sy', dx=d1, s='array', hermitian=True),
                              dict(t='onsite', u=0, op='Sx', s='scalar', hermitian=True)]
@@ -440,6 +517,9 @@ def _term_sets(site, dim, Lu, conserve):
                          dict(t='onsite', u=0, op='N', s='array', hermitian=True)]
         sets['exp'] = [dict(t='exp', op_i='N', op_j='N', **{'lambda': 0.5}, s='scalar', hermitian=True),
                        dict(t='exp', op_i='Cd', op_j='C', **{'lambda': 0.5}, s='scalar', cplx=True, plus_hc=True)]
+        sets['exp_cplx'] = [dict(t='exp', op_i='Cd', op_j='C', **{'lambda': [0.5, 0.25]}, s='scalar', cplx=True, plus_hc=True),
+                            dict(t='onsite', u=0, op='N', s='scalar', hermitian=True)]
+        sets['exp_sym'] = [dict(t='exp', op_i='Cd', op_j='C', **{'lambda': 'sym'}, s='scalar', cplx=True, plus_hc=True)]
         if conserve is None:
             sets['pairing'] = [dict(t='coupling', u1=0, op1='Cd', u2=0, op2='Cd', dx=d1, s='array', cplx=True, plus_hc=True),
                                dict(t='onsite', u=0, op='N', s='scalar', hermitian=True)]
@@ -465,6 +545,12 @@ def CASES(tier, seed):
                 _cfg('Chain', [4], ['open'], 'finite', site, cons, order='folded'),
                 _cfg('Chain', [2], ['periodic'], 'infinite', site, cons),
             ]
+        if site == 'spin':
+            lattices += [_cfg('Chain', [3], ['open'], 'finite', 'hubbard', ['N', 'Sz'])]
+            if tier == 'thorough':
+                lattices += [_cfg('Chain', [3], ['open'], 'finite', 'hubbard', [None, None]),
+                             _cfg('Chain', [3], ['open'], 'finite', 'hubbard', ['N', 'Sz'], order='folded'),
+                             _cfg('Chain', [2], ['periodic'], 'infinite', 'hubbard', ['N', 'Sz'])]
         lattices += [
             _cfg('Ladder', [2], ['open'], 'finite', site, conserves[0]),
             _cfg('Ladder', [1], ['periodic'], 'infinite', site, conserves[0]),
@@ -492,8 +578,11 @@ def CASES(tier, seed):
             terms = [dict(t) for t in terms]
             herm = all(t.get('plus_hc') or t.get('hermitian') or t['t'] == 'coupling_hc_by_hand' for t in terms)
             for eph in ((False, True) if herm else (False, )):
-                if tier == 'quick' and eph and (nm not in ('nn_real', 'nn_cplx', 'hc_by_hand', 'multi', 'exp') or c['order'] == 'folded'
-                                                or c['conserve'] != (None if c['site'] == 'spin' else 'N')):
+                if tier == 'quick' and eph and (nm not in ('nn_real', 'nn_cplx', 'hc_by_hand', 'multi', 'exp', 'exp_cplx', 'exp_sym')
+                                                or c['order'] == 'folded'
+                                                or c['conserve'] not in ((None, ) if c['site'] == 'spin' else ('N', ['N', 'Sz']))):
+                    continue
+                if tier == 'quick' and nm == 'exp_sym' and not (c['cls'] == 'Chain' and c['order'] == 'default'):
                     continue
                 if tier == 'quick' and c['order'] == 'folded' and nm in ('nn_xy', 'pairing', 'hc_by_hand', 'nn_nonherm'):
                     continue
@@ -501,7 +590,7 @@ def CASES(tier, seed):
                 if c['bc_MPS'] == 'infinite' and N * nc > (4 if tier == 'quick' else 6):
                     nc = max(1, (4 if tier == 'quick' else 6) // N)
                 cases.append(dict(name=f"terms.{nm}[{_name(c)},explicit_plus_hc={eph}]", fn='coupling_model_case',
-                                  params=dict(cfg=c, terms=terms, eph=eph, n_free=1 if N <= 4 else 0, n_cells=nc), opts=O))
+                                  params=dict(cfg=c, terms=terms, eph=eph, n_free=1 if (N <= 4 and not (c['site'] == 'hubbard' and nm == 'nn_real')) else 0, n_cells=nc), opts=O))
     for c in lattices[:1] + [x for x in lattices if x['bc_MPS'] == 'infinite'][:1]:
         cases.append(dict(name=f"plain_MPOModel[{_name(c)}]", fn='plain_mpo_model_case', params=dict(cfg=c), opts=O))
     # predefined models
